@@ -180,7 +180,7 @@ def check_tag_control_dependence(ctx, rule, P, allow_pop=("SecretKey<C>::proof_o
     every scheme-trait call must sit under a scheme arm."""
     n = 0
     for fn in P.fns.values():
-        if fn.trait_default_of in SCHEME_TRAITS:
+        if owner_trait(P, fn) in SCHEME_TRAITS:
             continue
         for bb in sorted(fn.cfg.reachable):
             items = [it for it in scheme_items_in_block(P, fn, bb) if it[0] in ("tag", "call")]
@@ -194,6 +194,9 @@ def check_tag_control_dependence(ctx, rule, P, allow_pop=("SecretKey<C>::proof_o
                     ctx.ob(rule, "%s/%s" % (fn.key, desc), True, "proof-of-possession purpose call in its dedicated wrapper", where=where(fn, bb, sp))
                     continue
                 ok = len(sc) > 0
+                if purpose == "pop":
+                    ctx.ob(rule + ".pop", "%s/%s" % (fn.key, desc), False, "proof-of-possession purpose item `%s` used outside the proof-of-possession prove/verify pair" % desc, where=where(fn, bb, sp))
+                    continue
                 ctx.ob(
                     rule,
                     "%s/%s" % (fn.key, desc),
@@ -205,14 +208,20 @@ def check_tag_control_dependence(ctx, rule, P, allow_pop=("SecretKey<C>::proof_o
     return n
 
 
+def owner_trait(P, fn):
+    """Trait whose default method this function (or the function enclosing this closure) is."""
+    seen = 0
+    while fn is not None and fn.kind == "Closure" and seen < 8:
+        fn = P.fns.get(fn.j.get("parent_key"))
+        seen += 1
+    return fn.trait_default_of if fn is not None else None
+
+
 def check_inside_scheme_traits(ctx, rule, P):
     """E2-C: a scheme trait's default methods only use that trait's own tags/methods."""
     n = 0
     for fn in P.fns.values():
-        owner = fn.trait_default_of
-        if fn.kind == "Closure":
-            pk = fn.j.get("parent_key", "")
-            owner = pk.split("::")[0] if pk.split("::")[0] in SCHEME_TRAITS else None
+        owner = owner_trait(P, fn)
         if owner not in SCHEME_TRAITS:
             continue
         ctx.saw(fn)
